@@ -41,15 +41,15 @@ claim("C17", "M", "SMT bounded model checking of MIR (z3 + cvc5 portfolio)",
       "Kernel level (narrow): the channel_update acceptance closures of NetworkGraph::update_channel_internal - strictly newer timestamp per direction, htlc_maximum <= known capacity - for all timestamps/flags/amounts; counterexamples are replayed through the public NetworkGraph API. Signatures, announcements, pruning and order-independence over message sets are outside the claim.",
       "trusted: rustc MIR dump, engine_m, z3")
 claim("C06", "M", "SMT bounded model checking of MIR (z3 + cvc5 portfolio)",
-      "Kernel level (narrow): the fee and scheduling kernels that justice claims run on - first-attempt fee, RBF bumping (monotone, BIP-125 rules 3/4), package output value, merge, re-bump timer tied to the counterparty CSV height - and the classification of revoked outputs as malleable packages. Detection of revoked commitments, secret derivation, package construction and witness validity are outside the claim.",
+      "Kernel level (narrow): the fee and scheduling kernels that justice claims run on - first-attempt fee, RBF bumping (monotone, BIP-125 rules 3/4), package output value, merge, re-bump timer tied to the counterparty CSV height -, completeness of the retained revocation secrets (protocol-order prefix of the top m indices, SHA-256 uninterpreted) and the classification of revoked outputs as malleable packages. Detection of revoked commitments, secret derivation, package construction and witness validity are outside the claim.",
       "trusted: rustc MIR dump, engine_m, z3/cvc5; shares its obligations with C07 / C08.d (same code path)")
 K = "Kani 0.68 / CBMC bounded model checking of the compiled code"
 claim("C04", "M", "SMT bounded model checking of MIR (z3 + cvc5 portfolio)",
       "Kernel level: payment-secret metadata packing/unpacking (construct_info_bytes <-> verify) and the amount / expiry / min-final-CLTV acceptance thresholds for all u64/u32/u16 inputs and all five methods, with the cryptography abstracted (decrypt = packed bytes, HMAC/preimage checks = arbitrary booleans); user-hash boundary cases replay through the real create_from_hash + verify. Unforgeability, MPP accumulation and claiming are outside the claim.",
       "trusted: rustc MIR dump, engine_m, z3; crypto abstraction listed in the evidence")
-claim("C05", "K", K,
-      "Kernel level: CounterpartyCommitmentSecrets slot arithmetic (place_secret for all u64, slot masks, get_min_seen_secret over a symbolic 49-slot store with a reduced index family). The SHA-256 based derive/provide consistency check is not covered by these harnesses; call-sequence rules are outside the claim.",
-      "trusted: Kani/CBMC; unwinding assertions on; cover witnesses required")
+claim("C05", "M+K", "SMT bounded model checking of MIR with SHA-256 uninterpreted (z3 + cvc5); Kani/CBMC harnesses for slot arithmetic",
+      "Kernel level: the counterparty-secret store. Engine M (symbolic seed, uninterpreted hash, top m commitment indices in protocol order): every honest secret is accepted, every revoked index stays recoverable and equals the seed-derived secret, a secret that does not derive the stored lower secrets is refused and the store is unchanged. Engine K: place_secret for all u64, slot masks, get_min_seen_secret. The EC check of a secret against the announced commitment point and all call-sequence rules are outside the claim.",
+      "trusted: rustc MIR dump, engine_m, z3/cvc5, Kani/CBMC; native replay runs the same sequences with real SHA-256 on a fixed seed")
 claim("C12", "K", K,
       "Kernel level: codec primitives (ints, U48, BigSize, CollectionLength, HighZeroBytesDroppedBigSize, bool, Option) round-trip and canonical-form rejection for every input <= 10 bytes; FixedLengthReader bounds; the real TLV macros on a probe struct (ordering, required/unknown-even/odd rules, exact lengths, truncation). Large persisted objects are outside the claim.",
       "trusted: Kani/CBMC; Kani-only model of bitcoin-io's io::Error payload (harness/patched/bitcoin-io)")
